@@ -64,6 +64,7 @@ def initial_cases(tier, seed):
     for cs in (0, 1):
         cases.append({"kind": "antisym", "cs": cs})
         cases.append({"kind": "spin", "cs": cs})
+        cases.append({"kind": "spin", "cs": cs, "scaled": True})
         for kk in ("RBF", "ARBF", "Poly", "Sum"):
             cases.append({"kind": "kerneleval", "kk": kk, "cs": cs})
         cases.append({"kind": "linear", "cs": cs})
@@ -176,6 +177,9 @@ def run_spin(case):
     Xc, alpha = _ctrl(case["seed"], salt=case["cs"])
     Xc2, _ = _ctrl(case["seed"], salt=case["cs"] + 7)
     k = K.DiffRBF(length_scale=LS)
+    if case.get("scaled"):
+        # constant prefactor: the spin kernel is a product of two kernel factors, each of which carries the constant
+        k = K.DiffConstantKernel(1.4) * k
     ev = X.SpinRBFEvaluator(k, np.stack([Xc, Xc2]), alpha)
     Xa = _lattice()
     Xb = _lattice()[::-1] * 0.9 + 0.03
@@ -197,7 +201,7 @@ def run_spin(case):
             num = (4 * ds[1] - ds[0]) / 3
             if np.abs(d[s, :, j] - num).max() > 2e-8 * (1 + np.abs(num).max()):
                 fails.append({"key": "gradient;kind=spin", "msg": "spin evaluator gradient (channel %d, feature %d) differs by %.3e" % (s, j, np.abs(d[s, :, j] - num).max())})
-    return {"fail": fails, "evals": 3, "outcome": ["spin", float("%.9e" % np.abs(f).sum())]}
+    return {"fail": fails, "evals": 3, "outcome": ["spin%s" % ("-scaled" if case.get("scaled") else ""), float("%.9e" % np.abs(f).sum())]}
 
 
 def run_kerneleval(case):
